@@ -157,6 +157,19 @@ class Impl:
             r = Sym("raisedInAlias") if "Exception inside alias" in err.getvalue() else Sym("notAlias")
         return r, decs
 
+    def eval_value(self, al, key, args):
+        """the documented direct entry: aliases.eval_alias(words) with every other parameter left at its default (what a
+        return_command wrapper calls)"""
+        decorators = []
+        err = io.StringIO()
+        try:
+            with contextlib.redirect_stderr(err), contextlib.redirect_stdout(err):
+                res = al.eval_alias([tok(key)] + [tok(a) for a in args], decorators=decorators)
+        except ValueError:
+            return Sym("valueError"), []
+        r, decs = self.enc_res(res, decorators)
+        return r, decs
+
     def resolve(self, al, cmd):
         from xonsh.procs.specs import SubprocSpec
 
@@ -242,6 +255,18 @@ def check_case(ctx, impl, tbl, rets, key, args, name, as_strings=frozenset()):
                     ("spec", case, {"with_args": [r, decs], "without_args": [r0, decs0], "raw": raw},
                      "user arguments are not appended verbatim, in order, after the alias's own")
                 )
+    # the direct entry eval_alias(words), called twice in a row on the same table: the same answer both times (nothing may be
+    # carried from one resolution into the next)
+    if not isinstance(r, Sym) and any(k == key for k, _ in tbl):
+        try:
+            with time_limit(10):
+                e1 = impl.eval_value(al, key, args)
+                e2 = impl.eval_value(al, key, args)
+            if e1 != e2:
+                problems.append(("spec", case, {"eval_alias_first": e1, "eval_alias_second": e2, "raw": raw},
+                                 "eval_alias(words) called twice on the same table gives different answers: words leak from one resolution into the next"))
+        except (Timeout, RecursionError):
+            pass
     # definition order must not matter
     order = list(range(len(tbl)))
     ctx.rng.shuffle(order)
